@@ -154,6 +154,42 @@ pub fn run(args: &Args) -> i32 {
             }
         }
     });
+    // clusters of many distinct points (a fit that thins or truncates large clusters may lose the end points)
+    let big_n = [64usize, 255, 256, 257, 368, 513, 1000];
+    rep.run("large-clusters", big_n.len() as u64 * 3 * 3 * 2, 600, true, "tracks of {64, 255, 256, 257, 368, 513, 1000} distinct points x curvature radius (3) x pitch (0, 0.3, -0.8) x {exact, displaced by 2 mm in z / 0.5 mm in r}: t_inner / t_outer against the innermost / outermost point of the cluster", |idx, loc| {
+        let d = unrank(idx, &[big_n.len() as u64, 3, 3, 2]);
+        let n = big_n[d[0] as usize];
+        let rad = [0.4, 1.1, 2.5][d[1] as usize];
+        let lambda = [0.0, 0.3, -0.8][d[2] as usize];
+        let noisy = d[3] == 1;
+        let v = [0.002, -0.001, 0.1];
+        // n distinct points: the 22-point ideal track gives the arc range, which is then re-sampled evenly in the bending angle
+        let ends = ideal_track(v, 0.7, rad, 1.0, lambda, 22);
+        if ends.len() < 2 {
+            return;
+        }
+        let (p0, p1) = (xyz(&ends[0]), xyz(ends.last().unwrap()));
+        let c = (v[0] - rad * (0.7f64).sin(), v[1] + rad * (0.7f64).cos());
+        let (a0, a1) = ((p0[1] - c.1).atan2(p0[0] - c.0), (p1[1] - c.1).atan2(p1[0] - c.0));
+        let pts: Vec<_> = (0..n).map(|i| {
+            let f = i as f64 / (n - 1) as f64;
+            let a = a0 + f * (a1 - a0);
+            let z = p0[2] + f * (p1[2] - p0[2]);
+            let (x, y) = (c.0 + rad * a.cos(), c.1 + rad * a.sin());
+            if noisy { sp_xy(x * (1.0 + 0.003 * (((i * 7) % 3) as f64 - 1.0)), y * (1.0 + 0.003 * (((i * 7) % 3) as f64 - 1.0)), z + if i % 2 == 0 { 0.002 } else { -0.002 }) } else { sp_xy(x, y, z) }
+        }).collect();
+        let inner = pts.iter().min_by(|a, b| a.r.partial_cmp(&b.r).unwrap()).copied().unwrap();
+        let outer = pts.iter().max_by(|a, b| a.r.partial_cmp(&b.r).unwrap()).copied().unwrap();
+        loc.note(hash64(&(idx, 6u8)), true, "evaluated");
+        match fit(pts) {
+            Err(p) => loc.violation(format!("panic:track-fit:{}", panic_site(&p)), json!({"points": n, "panic": p})),
+            Ok(Err(_)) => loc.count("large_clusters_without_fit", 1),
+            Ok(Ok(t)) => {
+                judge_t(&t, xyz(&inner), t.t_inner(), "t-inner", json!({"points": n, "radius": rad, "slope": lambda, "noisy": noisy}), loc);
+                judge_t(&t, xyz(&outer), t.t_outer(), "t-outer", json!({"points": n, "radius": rad, "slope": lambda, "noisy": noisy}), loc);
+            }
+        }
+    });
     // template track multisets: per-track t of the primary vertex
     let ms = multisets(7, if thorough { 5 } else { 3 });
     rep.run("template-vertices", ms.len() as u64, 600, true, "multisets of template tracks (through the axis, back to back, zero pitch, identical copy, huge radius with subnormal pitch, off axis with large pitch): per-track t of the primary vertex", |idx, loc| {
